@@ -17,6 +17,10 @@ site once (`boot`), then builds artifacts; a build is the list of sites whose va
 artifact (`Build`, any list of site indices — the theorems quantify over *all* of them, so no call
 graph has to be trusted), a history is a list of builds of arbitrary length.
 
+Boundary: an artifact gets a value only by evaluating a site during its own build or by reading an early site.  State
+kept in a long-lived builder object / cache between two builds is NOT a site (see `C17.kept_value_shares`); the harness
+detects it on the real code (every value must have been drawn during the build of the artifact that carries it).
+
 Everything here is executable (`drv_c17` runs `run` on the traces observed on the real code).
 -/
 namespace SpsdkVerif.Fresh
